@@ -6,6 +6,7 @@ package main
 
 import (
 	"fmt"
+	"strings"
 	"unsafe"
 )
 
@@ -22,8 +23,81 @@ var (
 	o1Distinct  int64
 	eqTable     = map[string]o1Entry{}
 	eqCompared  int64
-	persistVault []vaultEntry // a sample of strings kept across runs
 )
+
+// The persistent vault: a ring of strings and error values handed out in
+// earlier runs of this process. A library that recycles result buffers through
+// a structure of its own (a ring of buffers, a free list) overwrites a string
+// only many calls later - possibly in a later run.
+type pvEntry struct {
+	v   vaultEntry
+	run int
+}
+type peEntry struct {
+	e   errEntry
+	run int
+}
+
+var (
+	pvRing    [4096]pvEntry
+	pvN       int
+	peRing    [1024]peEntry
+	peN       int
+	pvChecked int64
+)
+
+// persistAdd keeps a sample of this run's strings and errors.
+func persistAdd(res *runResult, run int) {
+	step := len(res.vault)/24 + 1
+	for i := 0; i < len(res.vault); i += step {
+		pvRing[pvN%len(pvRing)] = pvEntry{res.vault[i], run}
+		pvN++
+	}
+	step = len(res.errs)/8 + 1
+	for i := 0; i < len(res.errs); i += step {
+		peRing[peN%len(peRing)] = peEntry{res.errs[i], run}
+		peN++
+	}
+}
+
+// persistCheck re-reads everything in the rings.
+func persistCheck(run int) []Violation {
+	var v []Violation
+	n := pvN
+	if n > len(pvRing) {
+		n = len(pvRing)
+	}
+	for i := 0; i < n; i++ {
+		e := &pvRing[i]
+		pvChecked++
+		if e.v.s != e.v.clone {
+			nr := e.run
+			if nr == run {
+				nr = -1
+			}
+			v = append(v, Violation{Prop: "C14", Class: "string-changed", Task: e.v.task, Op: e.v.op, Detail: fmt.Sprintf("string returned by %s in run %d was %q and is %q now (run %d)", e.v.what, e.run, e.v.clone, e.v.s, run), NeedsRun: nr})
+			e.v.clone = strings.Clone(e.v.s) // report once
+			break
+		}
+	}
+	n = peN
+	if n > len(peRing) {
+		n = len(peRing)
+	}
+	for i := 0; i < n && len(v) == 0; i++ {
+		e := &peRing[i]
+		if now := canonErr(apis[e.e.ver], e.e.err); now != e.e.canon {
+			nr := e.run
+			if nr == run {
+				nr = -1
+			}
+			v = append(v, Violation{Prop: "C14", Class: "error-changed", Task: e.e.task, Op: e.e.op, Detail: fmt.Sprintf("error value returned in run %d was %q and is %q now (run %d)", e.run, e.e.canon, now, run), NeedsRun: nr})
+			e.e.canon = now
+			break
+		}
+	}
+	return v
+}
 
 const o1Cap = 400000
 
